@@ -38,19 +38,24 @@ class Chooser:
         return [p[1] for p in self.points]
 
 
-def explore(run, bound=None, max_execs=None, on_exec=None):
+def explore(run, bound=None, max_execs=None, on_exec=None, shard=None):
     """run(chooser) -> result.  Yields (choices, result) for every execution.
 
     bound None: all sequences (the run function must bound its own depth).
+    shard (rank, n): deterministic partition of the search: the subtrees below
+    the root execution are dealt round-robin to the n shards (the root itself
+    is reported by shard 0 only); the union over all shards is the whole space.
     """
     stack = [[]]
     n_exec = 0
+    root = True
     while stack:
         prefix = stack.pop()
         ch = Chooser(prefix)
         result = run(ch)
         n_exec += 1
-        yield ch, result
+        if not (root and shard is not None and shard[0] != 0):
+            yield ch, result
         if max_execs is not None and n_exec >= max_execs:
             return
         pts = ch.points
@@ -61,9 +66,14 @@ def explore(run, bound=None, max_execs=None, on_exec=None):
             spent += costs[c]
         # alternatives at points beyond the replayed prefix (last first, so
         # that DFS pops the earliest deviation first)
+        new = []
         for i in range(len(pts) - 1, len(prefix) - 1, -1):
             n, c, kind, costs = pts[i]
             for alt in range(n - 1, 0, -1):
                 if bound is not None and prefix_cost[i] + costs[alt] > bound:
                     continue
-                stack.append(ch.choices[:i] + [alt])
+                new.append(ch.choices[:i] + [alt])
+        if root and shard is not None:
+            new = [p for k, p in enumerate(new) if k % shard[1] == shard[0]]
+        root = False
+        stack.extend(new)
